@@ -35,7 +35,7 @@ def bounded(check):
         info = {"error": (p.stderr or p.stdout)[-400:]}
     out = dict(name="dehydrate/hydrate round trip: content lines, save-as rule, cmd/args, multi-output order (serial and pooled), corruption tolerance, "
                     "errors persisted", level="bounded",
-               bound="all sequences of <= %d lines over 5 line shapes x (datasource, text file[, raw file]); 3 save-as variants; 4-element multi-output; "
+               bound="all sequences of <= %d lines over 5 line shapes x (datasource, text file[, raw file]); 3 save-as variants; 4-element multi-output; every pattern of elements failing while being persisted (<= 3 elements); "
                      "3 entries x every subset x 5 corruption kinds" % n,
                result=info, violation=(p.returncode == 1), error=(p.returncode not in (0, 1)))
     if p.returncode == 1:
